@@ -181,6 +181,26 @@ def main():
                         fc[key] = fc[key.split(".")[0]][key.split(".")[1]]   # (an entry of a dictionary-valued constant)
                     if key not in fc or not doc_matches(fc[key], val, opts["NMONTHS"], cd):
                         bad("WritesAsDocumented:%s=%s:%s" % (f, v, key), dict(case=case, scale=scale, got=repr(fc.get(key))[:80], want=val))
+                # the value reaches the setter the dispatch table names: the family's constants are the ones that setter writes
+                # when called directly on untouched constants of the same scale and row
+                sname = tables["dispatch"].get(f, {}).get(v)
+                if sname:
+                    sc_d, c_d, t_d = fresh(scale, cd["iso3"] if cd is not None else "ARG")
+                    c_d["NMONTHS"] = opts["NMONTHS"]
+                    try:
+                        fn = getattr(sc_d, sname)
+                        args = [c_d if p_ == "constants_for_params" else t_d if p_ in ("time_consts", "time_consts_for_params") else cd if p_ == "country_data" else None
+                                for p_ in inspect.signature(fn).parameters]
+                        with contextlib.redirect_stdout(io.StringIO()):
+                            fn(*args)
+                        direct = flat(c_d)
+                        direct.update(flat(t_d))
+                        rep["named_setter_compares"] = rep.get("named_setter_compares", 0) + 1
+                        for key in sorted(owns[f]):
+                            if key in direct and not (key in fc and same(fc[key], direct[key])):
+                                bad("DispatchReachesNamedSetter:%s=%s:%s" % (f, v, key), dict(case=case, scale=scale, setter=sname, got=repr(fc.get(key))[:80], want=repr(direct[key])[:80]))
+                    except BaseException:  # noqa  (a setter with prerequisites the dispatcher provides: judged by the transitions of part 1)
+                        rep["named_setter_skipped"] = rep.get("named_setter_skipped", 0) + 1
                 # other families' constants are what they are in the base dictionary
                 ch = changed(c_base, c)
                 extra = ch - owns[f]
